@@ -10,6 +10,7 @@ import (
 	"strings"
 	"time"
 
+	"cuelang.org/go/cue"
 	"cuelang.org/go/cue/cuecontext"
 	toml "github.com/pelletier/go-toml"
 	"github.com/vimeo/dials/ptrify"
@@ -44,7 +45,12 @@ func genLeaf(r *coqfmt.Rng) reflect.Type {
 	case x < 11:
 		return coqfmt.Pick(r, leafTypes)
 	case x < 13:
-		return reflect.SliceOf(coqfmt.Pick(r, leafTypes))
+		for {
+			// not []uint8: that is []byte, which encoding/json reads from a base64 string
+			if e := coqfmt.Pick(r, leafTypes); e.Kind() != reflect.Uint8 {
+				return reflect.SliceOf(e)
+			}
+		}
 	case x < 15:
 		return reflect.MapOf(reflect.TypeOf(""), coqfmt.Pick(r, leafTypes))
 	case x == 15:
@@ -181,6 +187,12 @@ func genDoc(r *coqfmt.Rng, t reflect.Type, bad *int) *doc {
 		l := make([]*doc, n)
 		for i := range l {
 			l[i] = genDoc(r, t.Elem(), bad)
+			if t.Elem().Kind() == reflect.Struct && l[i].kind != dMap {
+				// TOML cannot mix tables and other values in one array: the ill-typed value may sit
+				// inside an element, not replace it
+				none := 0
+				l[i] = genDoc(r, t.Elem(), &none)
+			}
 		}
 		return dL(l...)
 	case t.Kind() == reflect.Map:
@@ -339,6 +351,85 @@ func fromAny(v interface{}) (*doc, error) {
 	return nil, errOutside
 }
 
+// hasDupKeysJSON reports a repeated key in some object of a valid JSON text.
+func hasDupKeysJSON(text string) bool {
+	dec := json.NewDecoder(strings.NewReader(text))
+	type frame struct {
+		obj  bool
+		keys map[string]bool
+		key  bool // next string token is a key
+	}
+	var st []*frame
+	for {
+		tok, err := dec.Token()
+		if err != nil {
+			return false
+		}
+		top := func() *frame {
+			if len(st) == 0 {
+				return nil
+			}
+			return st[len(st)-1]
+		}
+		switch v := tok.(type) {
+		case json.Delim:
+			switch v {
+			case '{':
+				if t := top(); t != nil && t.obj {
+					t.key = true
+				}
+				st = append(st, &frame{obj: true, keys: map[string]bool{}, key: true})
+				continue
+			case '[':
+				if t := top(); t != nil && t.obj {
+					t.key = true
+				}
+				st = append(st, &frame{})
+				continue
+			default:
+				st = st[:len(st)-1]
+				continue
+			}
+		case string:
+			if t := top(); t != nil && t.obj && t.key {
+				if t.keys[v] {
+					return true
+				}
+				t.keys[v] = true
+				t.key = false
+				continue
+			}
+		}
+		if t := top(); t != nil && t.obj {
+			t.key = true
+		}
+	}
+}
+
+func hasDupKeysYAML(v interface{}) bool {
+	switch x := v.(type) {
+	case yaml.MapSlice:
+		seen := map[interface{}]bool{}
+		for _, it := range x {
+			k := fmt.Sprintf("%T:%v", it.Key, it.Key)
+			if seen[k] {
+				return true
+			}
+			seen[k] = true
+			if hasDupKeysYAML(it.Value) {
+				return true
+			}
+		}
+	case []interface{}:
+		for _, e := range x {
+			if hasDupKeysYAML(e) {
+				return true
+			}
+		}
+	}
+	return false
+}
+
 // genericParse: (doc, parseError, outsideLanguage)
 func genericParse(f int, text string) (*doc, error, bool) {
 	var top interface{}
@@ -357,6 +448,9 @@ func genericParse(f int, text string) (*doc, error, bool) {
 		if m == nil { // JSON null
 			return nil, nil, true
 		}
+		if hasDupKeysJSON(text) { // a repeated key is not data of the document language
+			return nil, nil, true
+		}
 		top = m
 	case 1:
 		var m map[string]interface{}
@@ -365,6 +459,10 @@ func genericParse(f int, text string) (*doc, error, bool) {
 		}
 		if m == nil {
 			m = map[string]interface{}{}
+		}
+		var ms yaml.MapSlice
+		if err := yaml.Unmarshal([]byte(text), &ms); err == nil && hasDupKeysYAML(ms) {
+			return nil, nil, true // yaml.v2 lets a repeated key overwrite in a map but decodes both into a struct
 		}
 		top = m
 	case 2:
@@ -378,8 +476,17 @@ func genericParse(f int, text string) (*doc, error, bool) {
 		if err := val.Err(); err != nil {
 			return nil, err, false
 		}
+		if err := val.Validate(cue.Concrete(true)); err != nil {
+			// disjunctions, references to other fields, unresolved values: valid CUE but not data
+			return nil, nil, true
+		}
 		var m map[string]interface{}
 		if err := val.Decode(&m); err != nil {
+			if strings.Contains(err.Error(), "non-concrete") || strings.Contains(err.Error(), "incomplete") {
+				// a field referring to another field / an unresolved value: valid CUE but not data; cue
+				// decodes such a field into a struct by leaving it unset (noted in notes/C13.md)
+				return nil, nil, true
+			}
 			return nil, err, false
 		}
 		if m == nil {
